@@ -143,6 +143,9 @@ func (p *Program) structValues(f *File, d *Def, depth int) []*Val {
 func (p *Program) Deviations(f *File, d *Def, k int) []*Val {
 	if d.Kind == "union" {
 		var out []*Val
+		if d.AllowEmpty {
+			out = append(out, Rec(nil))
+		}
 		for _, fd := range d.Fields {
 			for _, x := range p.d(f, fd.Type, 1) {
 				out = append(out, Rec(map[string]*Val{fd.Name: x}))
@@ -220,7 +223,7 @@ func (p *Program) Valid(f *File, t *Type, v *Val) bool {
 				return false
 			}
 		}
-		if d.Kind == "union" && n != 1 {
+		if d.Kind == "union" && n != 1 && !(d.AllowEmpty && n == 0) {
 			return false
 		}
 		return true
